@@ -8,6 +8,11 @@ CLAIMS = {
    text="Structural necessary conditions of C17 decided statically for every Copy method of schema/lang: every struct field (present and future, from go/types) is assigned in the result; no map/slice/pointer field nor container element is the receiver's own storage; receivers are nil-guarded; element stores are index-safe. Decides the mechanism, not value-level equality.",
    note="Trusts go/types+go/cfg; immutability of constraints, addresses, cty values is taken from the property statement; nil-vs-empty equality not decided.",
    ref="DESIGN.md §2 E5, §3 C17"),
+ "C03": dict(
+   technique="static analysis: map-iteration-order taint with inter-procedural 'unordered result' summaries to a fixed point (go/cfg paths to sort calls), strict-weak-order decision of every comparator by finite abstraction, who-may-call rules for nondeterminism sources and post-init state",
+   text="Structural necessary conditions of C03 decided statically: every range over a Go map (59 sites) is classified; every slice filled in map order crosses a sort on every CFG path before a public API returns it or it is embedded in a result (internal collectors move the obligation to all callers); every comparator (3 Less methods, 8 sort closures) is proved a strict weak order by enumerating all weak orderings of three abstract elements per key; no ambient nondeterminism source is called; no package-level or decoder-level state is written after construction.",
+   note="Does not decide tie-freedom of sort keys on real data, nor the cross-type order of JSON blocks returned by hcl; trusts go/types+go/cfg, the stated hclsyntax disjoint-range assumption for first-match returns, and that third-party callees are deterministic.",
+   ref="DESIGN.md §2 E2, §3 C03"),
 }
 NA = {}
 ALL = ["C%02d" % i for i in range(1, 21)]
